@@ -28,7 +28,8 @@ func runC08(seed int64, n int, dir string, tier string) *Report {
 	g := gen.New(seed)
 	rep := NewReport("C08", seed)
 	rep.Rule = "n histories of up to 6 operations from a random well-formed list (<=6 nodes, <=7 edges, ids from an 8-name pool plus odd ids; in half of the histories not normalised: parallel edges, repeated targets); removals that name no node included; one case per executed step; non-trivial = the list before the step has >=2 nodes and >=1 edge, or the argument list has; distinct by hash of the printed case"
-	cf := &CasesFile{Imports: "Model.Base Model.Graph Corr.CheckC08", Type: "case08", Eval: "mismatches"}
+	cfx := &CasesFile{Imports: "Model.Base Model.Graph Corr.CheckC08", Type: "case08x", Eval: "mismatches_x"}
+	cf := wrapAdder{cfx, "One"}
 	for h := 0; h < n; h++ {
 		sh := gen.Shape{MaxNodes: 6, MaxEdges: 7, WellFormed: true, Richness: 0.3, OddIDs: 0.06}
 		if h%7 == 3 {
@@ -124,9 +125,128 @@ func runC08(seed int64, n int, dir string, tier string) *Report {
 			}
 		}
 	}
-	rep.CasesFiles = cf.Write(filepath.Join(dir, "cases_C08"))
+	runC08Pool(g, rep, cfx, n/2+1)
+	if tier == "thorough" {
+		runC08Enum(g, rep, cfx, 4, 20000)
+	} else {
+		runC08Enum(g, rep, cfx, 3, 1500)
+	}
+	rep.CasesFiles = cfx.Write(filepath.Join(dir, "cases_C08"))
 	rep.ShardSize = shardSize
 	return rep
+}
+
+// grafting and merging weigh more in pool histories: they are the operations that can make lists share storage
+var poolKinds = append(append([]graphops.Kind{}, graphops.AllKinds...), graphops.RelateList, graphops.RelateList, graphops.RelateNode, graphops.Add, graphops.Add, graphops.Remove)
+
+var inPlace = map[graphops.Kind]bool{graphops.Clean: true, graphops.Add: true, graphops.Remove: true, graphops.RelateNode: true, graphops.RelateList: true}
+
+// runC08Pool: histories over a pool of three live lists. An operation on one list may take
+// another live list as its argument (so the two may come to share storage), and a
+// value-returning operation's result becomes a live list too. After every step EVERY live
+// list is observed: the list written is compared with the model's step (One), every other
+// list must be structurally what it was (Frame), and all of them must still be well-formed.
+func runC08Pool(g *gen.G, rep *Report, cfx *CasesFile, n int) {
+	rep.Rule += "; plus n/2 pool histories: three live lists (<=5 nodes each, ids from one 8-name pool, root slices with and without spare capacity), up to 8 operations whose list argument is another live list three times out of four and whose result (for value-returning operations) replaces a random live list; after each step every live list is observed"
+	for h := 0; h < n; h++ {
+		sh := gen.Shape{MaxNodes: 5, MaxEdges: 5, WellFormed: true, Richness: 0.15, OddIDs: 0.03}
+		pool := make([]*sbom.NodeList, 3)
+		for i := range pool {
+			pool[i] = g.NodeList(sh)
+			if g.Chance(0.5) {
+				// root list with spare capacity, as appends and the protobuf decoder leave them
+				pool[i].RootElements = append(make([]string, 0, len(pool[i].RootElements)+1+g.Int(3)), pool[i].RootElements...)
+			} else {
+				pool[i].RootElements = append(make([]string, 0, len(pool[i].RootElements)), pool[i].RootElements...)
+			}
+		}
+		type graft struct {
+			at string
+			t  sbom.Edge_Type
+		}
+		lastGraft := map[int]graft{}
+		var history []any
+		initial := []any{graphops.PJ(pool[0]), graphops.PJ(pool[1]), graphops.PJ(pool[2])}
+		steps := 2 + g.Int(7)
+		for s := 0; s < steps; s++ {
+			r := g.Int(3)
+			op := graphops.Random(g, pool[r], poolKinds, sh)
+			if op.Kind == graphops.RelateNode || op.Kind == graphops.RelateList {
+				// grafting twice at the same node with the same edge type extends the edge made the first time
+				if lg, ok := lastGraft[r]; ok && g.Chance(0.6) {
+					op.At, op.T = lg.at, lg.t
+				}
+				lastGraft[r] = graft{op.At, op.T}
+			}
+			a := -1
+			if op.L2 != nil && g.Chance(0.75) {
+				a = (r + 1 + g.Int(2)) % 3
+				op.L2 = pool[a]
+			}
+			dst := r
+			if !inPlace[op.Kind] {
+				dst = g.Int(3)
+			}
+			beforeCoq := make([]string, 3)
+			beforeWF := true
+			for i, l := range pool {
+				beforeCoq[i] = coqfmt.NodeList(l)
+				if props.WellFormed(l) != nil {
+					beforeWF = false
+				}
+			}
+			if op.L2 != nil && props.WellFormed(op.L2) != nil {
+				beforeWF = false
+			}
+			opCoq := op.Coq()
+			d := op.Describe()
+			delete(d, "arg_nodelist")
+			d["receiver"], d["argument_slot"], d["result_slot"] = r, a, dst
+			history = append(history, d)
+			after, outcome, pv := op.Apply(pool[r])
+			input := map[string]any{"initial_pool": initial, "history": append([]any{}, history...), "outcome": outcome}
+			if outcome == graphops.Panic {
+				rep.OracleEvals++
+				rep.Fail(Failure{What: "operation panicked", Detail: fmt.Sprint(pv), Input: input})
+				break
+			}
+			if outcome == graphops.OK {
+				pool[dst] = after
+			} else {
+				dst = r
+			}
+			input["pool_after"] = []any{graphops.PJ(pool[0]), graphops.PJ(pool[1]), graphops.PJ(pool[2])}
+			big := false
+			for i, l := range pool {
+				var c string
+				if i == dst {
+					c = fmt.Sprintf("(One (mk_case08 %s %s %d %s))", beforeCoq[r], opCoq, outcome, coqfmt.NodeList(l))
+				} else {
+					c = fmt.Sprintf("(Frame %s %s)", beforeCoq[i], coqfmt.NodeList(l))
+				}
+				cfx.Add(c)
+				rep.NoteCase(c, i == dst || len(l.Nodes) >= 2, input)
+				rep.OracleEvals++
+				if beforeWF {
+					if err := props.WellFormed(l); err != nil {
+						rep.Fail(Failure{What: fmt.Sprintf("after %s on live list %d, live list %d is not well-formed", op.Kind, r, i), Detail: err.Error(), Input: input})
+					}
+				}
+				if len(l.Nodes) > 12 {
+					big = true
+				}
+			}
+			rep.Count("pool_op=" + string(op.Kind))
+			if a >= 0 {
+				rep.Count("pool_arg=live-list")
+			} else {
+				rep.Count("pool_arg=fresh-or-none")
+			}
+			if big {
+				break
+			}
+		}
+	}
 }
 
 func finderC08(op *graphops.Op, before, after *sbom.NodeList) string { return "" }
